@@ -30,7 +30,7 @@ check('C25', title='Concurrent senders get unique consecutive sequence numbers',
            'to send/send_batch is on the wire exactly once and nothing else is; every socket write is a sequence of whole messages; the store returns under each number exactly the bytes transmitted under it and holds nothing '
            'else; the control record and the session counter equal start + number of messages; every send reports success; no deadlock, livelock (a message never written), crash; and in the tsan parts no ThreadSanitizer report.',
       level_note='2 threads x 2 sends at bound 4, 3 threads (two sends + a batch) at bound 3, batches against singles at bound 3, file store (its system calls are scheduling points), pipelined 2 x 1 at bound 2 and send against batch at bound 1 (quick); deeper bounds and 4 threads, capped by the deadline (thorough). '
-                 '8 threads are out of reach of exhaustive search. Data-race clause: every explored schedule of the tsan parts (bound 2 threaded, bound 1 pipelined in the quick tier).',
+                 '8 threads are out of reach of exhaustive search. Two sessions in one process (one sender each; what the library keeps static is shared) at bound 2, senders against a thread handing inbound application messages to Session::process at bound 3. Data-race clause: every explored schedule of the tsan parts (bound 2 threaded, bound 1 pipelined in the quick tier).',
       rule='execution = one complete schedule; distinct schedules by construction; non-trivial = at least one preemption', assumptions=_SCHED,
       budget={'quick': 330, 'thorough': 2400},
       parts=[
@@ -43,6 +43,9 @@ check('C25', title='Concurrent senders get unique consecutive sequence numbers',
           _p('pipe-keep', 'schedp', ['pm=p', 'ops=n,s', 'bound=2'], ['pm=p', 'ops=ns,sn', 'bound=2']),
           _p('thr-keep', 'schedp', ['pm=t', 'ops=ns,sn', 'bound=3'], ['pm=t', 'ops=ns,sn', 'bound=5']),
           _p('pipe-batch', 'schedp', ['pm=p', 'ops=s,b', 'bound=1'], ['pm=p', 'ops=s,b', 'bound=2']),
+          _p('thr-two-sessions', 'schedp', ['pm=t2', 'ops=ss,ss', 'bound=2'], ['pm=t2', 'ops=sbs,ssb', 'bound=3']),
+          _p('thr-in-out', 'schedp', ['pm=t', 'ops=ss,aa', 'bound=3'], ['pm=t', 'ops=sb,aaa', 'bound=4']),
           _p('tsan-thr', 'tsan', ['pm=t', 'ops=ss,ss', 'bound=2'], ['pm=t', 'ops=sb,bs', 'bound=3']),
+          _p('tsan-two-sessions', 'tsan', ['pm=t2', 'ops=as,sa', 'bound=1'], ['pm=t2', 'ops=asb,sab', 'bound=2']),
           _p('tsan-pipe', 'tsan', ['pm=p', 'ops=s,s', 'bound=1'], ['pm=p', 'ops=s,s', 'bound=2']),
       ])
